@@ -399,7 +399,14 @@ func runCheck(id, tier string, seed int, repo string, overlay map[string][]byte,
 			// safety sweep: the function has no contract; only what must hold for
 			// it not to crash is an obligation (and the preconditions of the
 			// contracted functions it calls)
-			obls = append(obls, safetyOnly(enc.obls)...)
+			for _, o := range safetyOnly(enc.obls) {
+				// outside a baseline update only the obligations that discharged on the
+				// unchanged tree are run: the others claim nothing and would each cost
+				// a full time-out on three solvers
+				if updateBaseline || baseline[o.Name] {
+					obls = append(obls, o)
+				}
+			}
 		} else {
 			obls = append(obls, enc.obls...)
 		}
